@@ -21,7 +21,7 @@ XMI = "http://www.omg.org/XMI"
 # the four attributes the writer moves to the front (the property's "Capella's attribute order"): their
 # position in the source tree is not information, the relative order of all others is
 PRIO = (f"{{{XMI}}}version", f"{{{XMI}}}type", f"{{{XMI}}}id", f"{{{XSI}}}type")
-KNOWN = {"cdata": "text-cdata-end", "blank": "blank-only-leaf-text"}
+KNOWN = {"cdata": "text-cdata-end", "blank": "blank-only-leaf-text", "empty": "empty-string-text"}
 
 
 # ------------------------------------------------------------------ independent wrap scanner
@@ -222,7 +222,7 @@ def gen_cases(chk, pools, n_target):
             return root, (80 if r2.random() < 0.8 else sys.maxsize)
         out.append(("root", set(), build))
     # K2: every escapable character in attribute values and in text, at start / middle / end
-    for ch in TEXT_ALPHABET:
+    for ch in TEXT_ALPHABET + [""]:
         for where in ("start", "mid", "end", "only"):
             for target in ("attr", "body", "lang"):
                 seed = rng.getrandbits(48)
@@ -285,14 +285,32 @@ def gen_cases(chk, pools, n_target):
 
 
 def blank_or_cdata(root) -> set[str]:
+    """which of the recorded writer defects the tree can trigger"""
     f = set()
     for el in root.iter():
-        if isinstance(el.tag, str) and el.text:
+        if not isinstance(el.tag, str):
+            continue
+        if el.text:
             if "]]>" in el.text:
                 f.add("cdata")
             if not el.text.strip() and len(el) == 0:
                 f.add("blank")
+        elif el.text == "" and len(el) == 0 and el.tag != "bodies":
+            f.add("empty")
     return f
+
+
+def neutralise(root, feats):
+    for el in root.iter():
+        if not isinstance(el.tag, str):
+            continue
+        if "cdata" in feats and el.text and "]]>" in el.text:
+            el.text = el.text.replace("]]>", "]]x")
+        if "blank" in feats and el.text and not el.text.strip() and len(el) == 0:
+            el.text = "x" + el.text
+        if "empty" in feats and el.text == "" and len(el) == 0 and el.tag != "bodies":
+            el.text = None
+    return root
 
 
 def check_doc(exs, root, ll):
@@ -560,21 +578,27 @@ def run(chk: lib.Check):
                     hist[str(col)] = hist.get(str(col), 0) + 1
                     depth_cols.add((depth, col))
         if probs:
-            present = blank_or_cdata(root)
+            present = sorted(blank_or_cdata(root))
             key = None
-            for ft in sorted(present):
-                r2, ll2 = build({ft})
-                if not check_doc(exs, r2, ll2)[1]:
-                    key = KNOWN[ft]
+            import itertools
+            for n in range(1, len(present) + 1):
+                for sub in itertools.combinations(present, n):
+                    r2, ll2 = build(set())
+                    if not check_doc(exs, neutralise(r2, set(sub)), ll2)[1]:
+                        key = [KNOWN[ft] for ft in sub]
+                        break
+                if key:
                     break
-            if key is None and len(present) == 2:
-                r2, ll2 = build(present)
-                if not check_doc(exs, r2, ll2)[1]:
-                    key = KNOWN["cdata"]
+            if key:
+                for k_ in key:
+                    chk.violation(k_, f"{kind} tree: {probs[0][:300]}",
+                                  {"kind": kind, "line_length": ll, "written": (b1 or b"").decode("utf-8", "replace")[:4000], "problems": probs})
+                key = "known"
             if key is None:
                 key = f"gen:{kind}:{hashlib.sha1(b1 or b'').hexdigest()[:12]}"
-            chk.violation(key, f"{kind} tree: {probs[0][:300]}",
-                          {"kind": kind, "line_length": ll, "written": (b1 or b"").decode("utf-8", "replace")[:4000], "problems": probs})
+            if key != "known":
+                chk.violation(key, f"{kind} tree: {probs[0][:300]}",
+                              {"kind": kind, "line_length": ll, "written": (b1 or b"").decode("utf-8", "replace")[:4000], "problems": probs})
         # model correspondence on the same tree
         if b1 is not None and (kind != "wrap" or corr_budget > 0):
             if kind == "wrap":
